@@ -161,6 +161,11 @@ def relocInstrs (φ : Nat → Nat) : List Instr → Nat → List Instr
     ⟨n, x.op, if isJumpClass x.op then relocArgs φ x.op x.args else x.args⟩ ::
       relocInstrs φ xs (n + (((opcodeOperands x.op).getD []).sum + 1))
 
+/-- length of the instructions laid out in the current format -/
+def v2len : List Instr → Nat
+  | [] => 0
+  | x :: xs => ((opcodeOperands x.op).getD []).sum + 1 + v2len xs
+
 /-- source-map entries of old instructions re-keyed to the offsets of the new ones -/
 def convSm (sm : SrcMap) : List Instr → List Instr → SrcMap
   | x :: xs, y :: ys => (match sm.lookup x.off with | some p => [(y.off, p)] | none => []) ++ convSm sm xs ys
